@@ -286,6 +286,14 @@ func check(c Case) (o h.Outcome) {
 			_, err = ld.LoadFromDataWithPath(rootBytes, &url.URL{Path: c.Root})
 		case "file":
 			_, err = ld.LoadFromFile(c.Root)
+		case "resolve-refs-in":
+			// the document was parsed by the caller; the loader only resolves its references
+			var d openapi3.T
+			if uerr := json.Unmarshal(rootBytes, &d); uerr != nil {
+				err = uerr
+			} else {
+				err = ld.ResolveRefsIn(&d, &url.URL{Path: c.Root})
+			}
 		case "uri-query":
 			_, err = ld.LoadFromURI(&url.URL{Path: c.Root, RawQuery: "version=2"})
 		default:
@@ -309,6 +317,14 @@ func check(c Case) (o h.Outcome) {
 			_, err = ld.LoadFromDataWithPath(rootBytes, &url.URL{Path: c.Root})
 		case "file":
 			_, err = ld.LoadFromFile(c.Root)
+		case "resolve-refs-in":
+			// the document was parsed by the caller; the loader only resolves its references
+			var d openapi3.T
+			if uerr := json.Unmarshal(rootBytes, &d); uerr != nil {
+				err = uerr
+			} else {
+				err = ld.ResolveRefsIn(&d, &url.URL{Path: c.Root})
+			}
 		case "uri-query":
 			_, err = ld.LoadFromURI(&url.URL{Path: c.Root, RawQuery: "version=2"})
 		default:
@@ -480,7 +496,7 @@ func xdefs() M {
 
 func posName(n metamodel.Node) string { return strings.TrimPrefix(n.Kind, "Ref:") + "<" + n.Parent }
 
-var entries = []string{"data", "datawithpath", "uri", "file", "uri-query"}
+var entries = []string{"data", "datawithpath", "uri", "file", "uri-query", "resolve-refs-in"}
 
 // the last three: characters that mean something in a URL but are ordinary in a file name
 var roots = []string{"/w/api/root.json", "api/root.json", "root.json", "api/ro#ot.json", "api/r%41t.json", "/w/ro?t.json"}
